@@ -1344,6 +1344,30 @@ func ruleInc7(c *Ctx) []*Ob {
 						o.add(fn, construct, c.instrPos(i), true, "the callee walks the children itself")
 						return
 					}
+					// the same loop also hands the child to a walker: the grandchildren are covered by that call, this
+					// one is a per-child helper (loop body parts extracted into methods of the child)
+					recursesToo := false
+					eachInstr(f, func(j ssa.Instruction) {
+						k2, isC := j.(*ssa.Call)
+						if !isC || !scc[j.Block()] || recursesToo {
+							return
+						}
+						h := k2.Call.StaticCallee()
+						if h == nil || (h != f && !rangesChild(h)) || len(k2.Call.Args) == 0 {
+							return
+						}
+						for _, a := range k2.Call.Args {
+							for _, og := range origins(a) {
+								if _, _, isEl := childKeyOf(og); isEl {
+									recursesToo = true
+								}
+							}
+						}
+					})
+					if recursesToo {
+						o.trivial(fn, construct, c.instrPos(i), "a per-child helper: the same iteration also hands the child to a walker, which covers the grandchildren")
+						return
+					}
 					if why, isOK := shallowOK[g.Name()]; isOK && g.Name() != "isEmpty" {
 						o.trivial(fn, construct, c.instrPos(i), "table: deliberately shallow ("+why+")")
 						return
